@@ -37,6 +37,10 @@ func init() {
 			{ID: "R01o", Floor: 1, Doc: "a reader that re-hashes what it reads uses the CID's own digest length (= R02h)", Run: ruleR02h},
 			{ID: "R01p", Floor: 2, Doc: "a block enters the index only after its section was written: a Put that failed must not make the next Put of that block a silent no-op (the CAR then lacks a block the writer acknowledged) (= R06a)", Run: ruleR06a},
 			{ID: "R01q", Floor: 4, Doc: "the deferred writer opens its file truncating: a stale tail of a longer earlier file would be read back as further sections (= R20b)", Run: ruleR20b},
+			{ID: "R01r", Floor: 2, Doc: "a section exactly as long as its CID is an empty block: wherever the library compares a decoded section length with the length of the section's CID, the comparison is strict (`cidLen > sectionLen` is the error) — every writer emits such sections, and a reader that refuses them disagrees with the others", Run: ruleR01r},
+			{ID: "R01s", Floor: 3, Doc: "the root-module selective writer puts every dag the caller listed into the header and walks each of them (= R15m)", Run: ruleR15m},
+			{ID: "R01t", Floor: 1, Doc: "no new mutable package-level state in the library: two readers must not share a decoded header (= R13k)", Run: ruleR13k},
+			{ID: "R01u", Floor: 1, Doc: "identity blocks read back as the digest the multihash decoder yields (= R04g)", Run: ruleR04g},
 		},
 	})
 }
@@ -161,7 +165,7 @@ func partsSum(fn *ssa.Function, d *ssa.Parameter) ssa.Value {
 		if !ok || out != nil {
 			return
 		}
-		h := ci.Common().StaticCallee()
+		h := staticTarget(ci.Common())
 		if h == nil || h.Blocks == nil || h.Pkg != fn.Pkg || len(h.Params) != 1 || len(ci.Call.Args) != 1 || canon(ci.Call.Args[0]) != ssa.Value(d) {
 			return
 		}
